@@ -121,6 +121,11 @@ pub fn check(c: &Case, ctx: &mut Ctx) -> Result<(), Failure> {
             _ => unreachable!("HARNESS: kind not in C02"),
         }
         for (j, (field, r)) in refs.iter().enumerate() {
+            if !r.to_f64().is_finite() {
+                // the documented value itself is not representable (huge unit times multiplier): no claim
+                ctx.label("reference_not_finite_skipped");
+                continue;
+            }
             let got = out.v[j];
             let e = err(got, *r);
             let cls = format!("{}.{}", name, field);
@@ -217,6 +222,13 @@ fn strategy(tier: Tier) -> BoxedStrategy<Case> {
     let maxlen = tier.pick(300usize, 1500usize);
     prop_oneof![
         8 => cfg_among(&SK, 1024, multiplier_any).prop_flat_map(move |cfg| (Just(cfg), multi_stream(Domain::AnySign, 1, maxlen))).prop_map(|(cfg, s)| Case {
+            cfg,
+            scalar: true,
+            xs: xs(&s.vals),
+            bars: vec![]
+        }),
+        // prices in an enormous unit (up to 5e307): intermediate doubling / scaling must not overflow
+        1 => cfg_among(&SK, 1024, || prop_oneof![Just(0.0), Just(1.0), Just(-0.5), Just(0.25)].boxed()).prop_flat_map(move |cfg| (Just(cfg), stream(Domain::Huge, 1, maxlen))).prop_map(|(cfg, s)| Case {
             cfg,
             scalar: true,
             xs: xs(&s.vals),
